@@ -37,3 +37,4 @@ CLAIMED['C07'] = (_STORE + '; invariant evaluated after every file-system/table 
 CLAIMED['C08'] = (
     'AST->SMT (z3 strings) of shelve.util.construct and the subset selection predicate for all names within the length bound; CrossHair+z3 for the construct/dissect round trip on symbolic names; solver-enumerated histories on real shelve files',
     'Selection lemma: unsat for all name pairs within the length bound (translator validated on every run); histories bounded.', _BASE_NOTE, 'DESIGN.md section 4 C08')
+CLAIMED['C11'] = (_SCHED.replace('scheduler/farm', 'farm/worker hand-off'), _SCHED_TXT, _BASE_NOTE, 'DESIGN.md section 3 C11')
